@@ -1,6 +1,6 @@
 import RxProofs.C02
 import RxProofs.Ownership
-import RxModel.PipeProducers
+import RxProofs.Lemmas.PipeProducers
 /-!
 # C03 — unsubscribing silences the subscriber and frees its sources
 
@@ -45,37 +45,15 @@ theorem late_subscription_disposed (h : Heap) (c x : Nat) (nc nx : Node)
     (hx : (Pipe.apply h (.add c x)).1[x]? = some nx) : nx.done = true :=
   C02.late_attach_disposed h c x nc nx hcn hk hd hx
 
-theorem fromIter_disposed {α} (dd : Nat → Bool) (i : Nat) (xs : List α) : fromIter dd i true xs = ([], 0) := by
-  cases xs <;> rfl
-
-/-- **fromIterable_polls.** If the downstream disposes during its k-th `on_next` (and not earlier), the
-producer emits exactly the first k+1 elements, pulls exactly k+1 times, and emits no terminal. -/
+/-- **fromIterable_polls** / **fromIterable_all** are proved in `RxProofs/Lemmas/PipeProducers.lean` (shared with C14). -/
 theorem fromIterable_polls {α} (dd : Nat → Bool) (xs : List α) (k i : Nat)
     (hk : k < xs.length) (hfirst : ∀ j, j < k → dd (i + j) = false) (hd : dd (i + k) = true) :
-    fromIter dd i false xs = ((xs.take (k + 1)).map Notif.next, k + 1) := by
-  induction xs generalizing k i with
-  | nil => simp at hk
-  | cons x xs ih =>
-    cases k with
-    | zero =>
-      simp only [Nat.add_zero] at hd
-      simp [fromIter, hd, fromIter_disposed]
-    | succ k =>
-      have h0 : dd i = false := by simpa using hfirst 0 (by omega)
-      have := ih k (i + 1) (by simpa using hk)
-        (fun j hj => by have := hfirst (j + 1) (by omega); rwa [show i + 1 + j = i + (j + 1) by omega])
-        (by rwa [show i + 1 + k = i + (k + 1) by omega])
-      simp [fromIter, h0, this]
+    fromIter dd i false xs = ((xs.take (k + 1)).map Notif.next, k + 1) :=
+  Pipe.fromIterable_polls dd xs k i hk hfirst hd
 
-/-- and when nobody disposes, everything is emitted followed by completion, with length+1 pulls. -/
 theorem fromIterable_all {α} (dd : Nat → Bool) (xs : List α) (i : Nat) (h : ∀ j, j < xs.length → dd (i + j) = false) :
-    fromIter dd i false xs = (xs.map Notif.next ++ [.completed], xs.length + 1) := by
-  induction xs generalizing i with
-  | nil => rfl
-  | cons x xs ih =>
-    have h0 : dd i = false := by simpa using h 0 (by simp)
-    have := ih (i + 1) (fun j hj => by have := h (j + 1) (by simp; omega); rwa [show i + 1 + j = i + (j + 1) by omega])
-    simp [fromIter, h0, this]
+    fromIter dd i false xs = (xs.map Notif.next ++ [.completed], xs.length + 1) :=
+  Pipe.fromIterable_all dd xs i h
 
 /-! Non-vacuity -/
 example : fromIter (fun j => j == 2) 0 false [10, 20, 30, 40, 50] = ([.next 10, .next 20, .next 30], 3) := by decide
